@@ -11,10 +11,17 @@
 (* not JSON), "search" (runtime error), "ok" (with the pretty-printed      *)
 (* result, and whether it is a string and its raw text).                   *)
 (*                                                                         *)
+(* Arguments are byte strings: an expression argument that is not UTF-8    *)
+(* text (exprsrc = "notext") is a bad expression; a path that is not text  *)
+(* (inv.bytespath) still names its file.  TEXT_ONLY_ARGS is the tool       *)
+(* before fix 4c47b9b (finding F20): clap's value_of panics on any         *)
+(* argument that is not text (exit 101, the panic report on stderr).       *)
+(*                                                                         *)
 (* Steps: ReadExprFile -> Compile -> (PrintAst) -> ReadInput -> ParseJson  *)
 (* -> Search -> Print, any of which may Die (message to stderr, exit 1).   *)
 (***************************************************************************)
 EXTENDS CliOutcome
+CONSTANT TEXT_ONLY_ARGS
 
 VARIABLES phase, stdout, stderr, exit
 cvars == <<phase, stdout, stderr, exit>>
@@ -23,7 +30,9 @@ cvars == <<phase, stdout, stderr, exit>>
 CInit == phase = "start" /\ stdout = "none" /\ stderr = "empty" /\ exit = -1
 Die == phase' = "dead" /\ stderr' = "message" /\ exit' = 1 /\ UNCHANGED stdout
 Step(inv, lib) ==
-  CASE phase = "start" -> IF inv.exprsrc = "missingfile" THEN Die ELSE phase' = "compile" /\ UNCHANGED <<stdout, stderr, exit>>
+  CASE phase = "start" -> IF TEXT_ONLY_ARGS /\ (inv.exprsrc = "notext" \/ inv.bytespath)
+                          THEN phase' = "dead" /\ stderr' = "panic" /\ exit' = 101 /\ UNCHANGED stdout
+                          ELSE IF inv.exprsrc \in {"missingfile", "notext"} THEN Die ELSE phase' = "compile" /\ UNCHANGED <<stdout, stderr, exit>>
     [] phase = "compile" -> IF lib.stage = "compile" THEN Die
                             ELSE IF inv.ast THEN phase' = "done" /\ stdout' = "ast" /\ exit' = 0 /\ UNCHANGED stderr
                             ELSE phase' = "readinput" /\ UNCHANGED <<stdout, stderr, exit>>
